@@ -83,6 +83,10 @@ def run_property(pid: str, tier: str, seed: int, budget_s: float, workers: int) 
             except BaseException as e:  # noqa: BLE001  (BrokenProcessPool etc.)
                 results.append({"task": {"prop": pid, "env": t["env"], "cfg": t["cfg"]["id"], "shard": t["shard"]},
                                 "harness_error": f"worker died: {type(e).__name__}: {e}"})
+    if os.environ.get("JSIM_DIGEST_ONLY"):
+        from jsim.selftest import digest_of_results
+
+        print("DIGEST", digest_of_results(results))
     return finish(pid, tier, seed, prop, results, time.time() - t0)
 
 
